@@ -16,6 +16,7 @@
     X(unsigned char, pv_ok, [VF_NCALL]) X(unsigned char, pv_len, [VF_NCALL]) X(unsigned char, pv_kind, [VF_NCALL]) \
     X(unsigned char, ps_ok, [VF_NCALL]) X(unsigned char, ps_len, [VF_NCALL])
 #include "vf.h"
+#include "vf_str.h"
 #define malloc vf_malloc
 #define free vf_free
 #define realloc vf_realloc
